@@ -71,7 +71,7 @@ theorem dropWhile_removeNsKid (p : Nat) (ks : List Tree) :
   | nil => rfl
   | cons k rest ih =>
     by_cases hc : (k.value.category == Category.namespace) = true
-    · obtain ⟨q, n, hv⟩ := (category_namespace_iff _).1 hc
+    · obtain ⟨q, n, hv⟩ := (category_namespace_iff_ex _).1 hc
       simp only [removeNsKid, hv]
       by_cases hp : q = p
       · simp only [hp, beq_self_eq_true, ↓reduceIte]
@@ -82,7 +82,7 @@ theorem dropWhile_removeNsKid (p : Nat) (ks : List Tree) :
     · have : removeNsKid p (k :: rest) = k :: rest := by
         unfold removeNsKid
         split
-        · rename_i q n h; exact absurd ((category_namespace_iff _).2 ⟨q, n, h⟩) hc
+        · rename_i q n h; exact absurd ((category_namespace_iff_ex _).2 ⟨q, n, h⟩) hc
         · rfl
       rw [this]
 
@@ -109,7 +109,7 @@ theorem mem_declsOfKids_removeNsKid (p : Nat) (kv : Nat × Nat) (ks : List Tree)
   | nil => exact h
   | cons k rest ih =>
     by_cases hc : (k.value.category == Category.namespace) = true
-    · obtain ⟨q, n, hv⟩ := (category_namespace_iff _).1 hc
+    · obtain ⟨q, n, hv⟩ := (category_namespace_iff_ex _).1 hc
       simp only [declsOfKids, hv, List.mem_cons] at h
       simp only [removeNsKid, hv]
       by_cases hq : q = p
@@ -125,7 +125,7 @@ theorem mem_declsOfKids_removeNsKid (p : Nat) (kv : Nat × Nat) (ks : List Tree)
     · have : removeNsKid p (k :: rest) = k :: rest := by
         unfold removeNsKid
         split
-        · rename_i q n h'; exact absurd ((category_namespace_iff _).2 ⟨q, n, h'⟩) hc
+        · rename_i q n h'; exact absurd ((category_namespace_iff_ex _).2 ⟨q, n, h'⟩) hc
         · rfl
       rw [this]; exact h
 
